@@ -77,6 +77,8 @@ pub struct Machine {
     pub br_taken: [u32; 256],
     pub br_not: [u32; 256],
     pub max_events: usize,
+    /// virtual mode: conditional branches carry a 16-bit absolute target (see AsmInput::wide_rel)
+    pub wide_rel: bool,
     cur_pc: u16,
     decode: Vec<Option<(&'static str, Mode, u8, bool)>>,
 }
@@ -121,6 +123,7 @@ impl Machine {
             br_taken: [0; 256],
             br_not: [0; 256],
             max_events: 200_000,
+            wide_rel: false,
             cur_pc: 0,
             decode,
         }
@@ -345,7 +348,15 @@ impl Machine {
                     cyc += 1;
                 }
             }
-            Mode::Rel => imm = self.fetch(),
+            Mode::Rel => {
+                if self.wide_rel {
+                    let lo = self.fetch() as u16;
+                    let hi = self.fetch() as u16;
+                    addr = lo | (hi << 8);
+                } else {
+                    imm = self.fetch()
+                }
+            }
         }
         macro_rules! operand {
             () => {
@@ -556,7 +567,7 @@ impl Machine {
                 };
                 if take {
                     self.br_taken[opc as usize] += 1;
-                    let t = self.pc.wrapping_add(imm as i8 as i16 as u16);
+                    let t = if self.wide_rel { addr } else { self.pc.wrapping_add(imm as i8 as i16 as u16) };
                     cyc += 1;
                     if (t & 0xff00) != (self.pc & 0xff00) {
                         cyc += 1;
